@@ -125,8 +125,11 @@ static ShimCfg &C() { return shim_cfg(); }
 static inline void call_point(uint32_t site)
 {
 	shim_call(site);
-	if (in_task() && C().kill_spid && cur_spid() == C().kill_spid && fault_here(F_KILL_BEFORE, C().rate_kill, NULL, 0))
-		proc_die();
+	if (in_task() && C().kill_spid && cur_spid() == C().kill_spid) {
+		bool die = fault_here(F_KILL_BEFORE, C().rate_kill, NULL, 0);
+		if (C().kill_countdown > 0 && --C().kill_countdown == 0) die = true;
+		if (die) proc_die();
+	}
 }
 
 static std::string sun_name(const struct sockaddr *a, socklen_t l)
@@ -568,7 +571,7 @@ extern "C" void *simk_mmap(void *a, size_t n, int prot, int fl, int fd, off_t of
 	if (r != MAP_FAILED && in_task() && shim_hooks().on_mmap) shim_hooks().on_mmap(r, n, prot, fl, fd);
 	return r;
 }
-extern "C" int simk_munmap(void *a, size_t n) { call_point(S_MUNMAP); return munmap(a, n); }
+extern "C" int simk_munmap(void *a, size_t n) { call_point(S_MUNMAP); access_region_unmap(a, n); return munmap(a, n); }
 
 // ------------------------------------------------------------------ identity, signals
 extern "C" pid_t simk_getpid(void)
